@@ -207,4 +207,4 @@ static bool replay(const std::string &text) {
     }
     return false;
 }
-int main(int argc, char **argv) { return vp::main_(argc, argv, {run, replay}); }
+VP_MAIN(run, replay)
